@@ -10,6 +10,10 @@ canonical form `xv.canon.canon_attr_strict` (never calls __eq__/__hash__/the pri
   twoctx    the same text parsed in two fresh Contexts (and twice in one Context): the results must be equal, hash
             equal and canonically equal - for generated attribute texts and, position-wise, for every attribute of
             every corpus module.
+  history   interleaved histories: texts / constructor arguments are used once, then hundreds to thousands of OTHER
+            unregistered attribute and type names, generated and corpus attributes are parsed / constructed in several
+            Contexts, then the same texts are parsed again in the old and in fresh Contexts and through the constructors;
+            all results must be ==, hash-equal, found in sets/dicts (bounded or wrongly keyed memoisation shows here).
   cse       downstream: modules of pure ops / arith.constant whose attributes are near-duplicates; after the real CSE
             pass every use must still see an op whose attributes are canonically the ones it saw before."""
 from __future__ import annotations
@@ -24,7 +28,8 @@ LEVEL = "exploration"
 RULE = ("pools of ~200 attributes: xv.genattr builtin values (boundary numerics), near-duplicates differing in exactly one "
         "leaf (sign of zero, NaN payload, +-1, width, signedness, one character, bool-vs-int payload), float corner-case "
         "family, rebuilt copies and dialect attributes harvested from the corpus; all pairs + complete transitivity + "
-        "dict/set behaviour per pool; same text parsed in two Contexts (generated texts and all corpus modules); CSE on "
+        "dict/set behaviour per pool; same text parsed in two Contexts (generated texts and all corpus modules), also after "
+        "interleaved histories of up to 5000 (quick) / 60000 (thorough) other look-ups with checkpoints; CSE on "
         "modules whose ops differ only in near-duplicate attributes. Non-trivial = a compared pair whose members have "
         "the same class and differ in at most one leaf (incl. equal copies built independently); distinct by hash of "
         "the pair of canonical forms")
@@ -440,6 +445,132 @@ def check_two_contexts_corpus(shard_i, shard_n, limit, R):
                 compare_parsed(x, y, f"{rel}#{idx} {o1.name}", "two-contexts", R)
 
 
+# ------------------------------------------------------------------ interleaved histories (memoisation / global state)
+# Attribute construction paths with process-global or context-dependent memoisation in xDSL (searched: functools.cache /
+# lru_cache / memo dictionaries): UnregisteredAttr.with_name_and_type (functools.cache, keyed (name, is_type)),
+# Context._loaded_attrs/_loaded_types (per context), the builtin dialect's resource table (process-global; known finding,
+# excluded here), dialect modules incl. IRDL-interpreted ones (sys.modules).  A bounded or wrongly keyed memo only shows
+# after a long history of OTHER look-ups between two uses of the same text / constructor arguments.
+_HIST_TARGETS = ['#{d}.a<1, 2>', '!{d}.t', '!{d}.t2<i32>', '#{d}<opq 1>', '!{d}<opqt "s">', '[#{d}.a<1>, !{d}.t, 1 : i32]',
+                 '{{k = #{d}.b, t = !{d}.t}}', 'tensor<2x!{d}.t>', '(!{d}.t) -> !{d}.t2<f32>', 'memref<2xf32, #{d}.ms>',
+                 'tuple<!{d}.t, i1>', 'tensor<2xf32, #{d}.enc<{{x = 1}}>>', 'loc(fused<#{d}.meta>[unknown])',
+                 '!cmath.complex<f32>', '#builtin.int<3>', 'vector<4x!{d}.e>']
+
+
+def _safe_parse(ctx, text):
+    return Parser(ctx, text).parse_attribute()
+
+
+def compare_group(objs, text, stage, R):
+    """objs: [(label, attribute)] that all denote the same text / constructor arguments."""
+    l0, a0 = objs[0]
+    c0 = canon(a0)
+    s0 = {a0}
+    d0 = {a0: l0}
+    for label, a in objs[1:]:
+        R.bump("history_comparisons")
+        why = None
+        if canon(a) != c0:
+            why = "canonically different"
+        elif (a0 == a) is not True or (a == a0) is not True or (a0 != a) is not False:
+            why = "not equal"
+        elif hash(a0) != hash(a):
+            why = "hashes differ"
+        elif a not in s0 or d0.get(a) != l0:
+            why = "set/dict lookup fails"
+        if why is None:
+            R.nontrivial.add(shash(("hist", shash(c0), label, stage)))
+            continue
+        blamed = "?"
+        pairs = list(zip(genattr.walk(a0), genattr.walk(a))) if canon(a) == c0 else []
+        for (x, _p, _s), (y, _q, _t) in pairs:
+            if type(x) is not type(y):
+                blamed = "class-object-differs:" + ("UnregisteredAttr" if isinstance(x, bi.UnregisteredAttr) else type(x).__name__)
+                break
+        R.viol(f"interleaved-history:same-value-{why.replace(' ', '-').replace('/', '-')}:{blamed}",
+               f"{l0} vs {label} after {stage} interleaved look-ups: the same text / constructor arguments give attributes "
+               f"that are {why}", [a0, a], text=text)
+
+
+def check_interleaved_history(rng, R, n_other, harvested, checkpoints):
+    """Parse / construct targets, then run a long history of OTHER unregistered names, generated attributes, corpus
+    attribute texts and constructions.  Every checkpoint owns its own group of targets (own unregistered dialect name),
+    first used at time 0 and not touched again before its checkpoint - so the distance between the two uses really is
+    the checkpoint position (re-using targets would refresh an LRU memo).  At its checkpoint a group is re-parsed in the
+    old context, in fresh contexts and through the constructors and compared with the first results (kept alive)."""
+    checkpoints = sorted({min(cp, n_other) for cp in checkpoints})
+    base = f"h{rng.getrandbits(24):x}"
+    shared = []
+    for h in rng.sample(harvested, min(25, len(harvested))):
+        try:
+            t = str(h)
+            if "dense_resource" in t or len(t) > 400:
+                continue
+            _safe_parse(new_ctx(True), t)
+            shared.append(t)
+        except Exception:  # noqa: BLE001 - not every dialect attribute re-parses stand-alone (C05/C06)
+            R.bump("history_corpus_texts_unparsable_skipped")
+    for _ in range(15):
+        shared.append(str(genattr.AttrGen(rng, max_depth=rng.choice([0, 1, 2]), avoid=genattr.SAFE_AVOID).attr()))
+    ctx1 = new_ctx(True)
+    groups = []
+    for k, cp in enumerate(checkpoints):
+        tag = f"{base}k{k}"
+        texts = [t.format(d=tag) for t in _HIST_TARGETS] + shared[k::len(checkpoints)]
+        first = {}
+        for t in texts:
+            try:
+                first[t] = _safe_parse(ctx1, t)
+            except Exception:  # noqa: BLE001
+                R.bump("history_targets_unparsable_skipped")
+        ctor_args = [(f"{tag}.ca", False, "1, 2"), (f"{tag}.ct", True, ""), (f"{tag}.a", False, "1, 2"), (f"{tag}.t", True, "")]
+        ctor_first = [bi.UnregisteredAttr.with_name_and_type(n, ty)(n, ty, False, body) for n, ty, body in ctor_args]
+        R.bump("history_targets", len(first) + len(ctor_first))
+        groups.append((cp, first, ctor_args, ctor_first))
+    side_ctx = new_ctx(True)
+    done = 0
+    for cp, first, ctor_args, ctor_first in groups:
+        while done < cp:
+            i = done
+            done += 1
+            p = rng.random()
+            name = f"o{base}{i % 97}.n{i}"
+            if p < .4:
+                _safe_parse(ctx1, f"#{name}<{i}>")
+            elif p < .6:
+                _safe_parse(side_ctx, f"!{name}")
+            elif p < .72:
+                _safe_parse(side_ctx, f"[#{name}.x, !{name}.y<i32>]")
+            elif p < .82:
+                ty = rng.random() < .5
+                bi.UnregisteredAttr.with_name_and_type(name, ty)(name, ty, False, str(i))
+            elif p < .9:
+                g = genattr.AttrGen(rng, max_depth=1, avoid=genattr.SAFE_AVOID).attr()
+                _safe_parse(side_ctx, str(g))
+            elif p < .97 and harvested:
+                try:
+                    _safe_parse(side_ctx, str(rng.choice(harvested)))
+                except Exception:  # noqa: BLE001
+                    pass
+            else:
+                side_ctx = new_ctx(True)
+            R.bump("history_interleaved_lookups")
+        stage = str(done)
+        fresh_a, fresh_b = new_ctx(True), new_ctx(True)
+        for t, a1 in first.items():
+            compare_group([("first parse in context 1", a1), ("parse in a fresh context", _safe_parse(fresh_a, t)),
+                           ("parse in a second fresh context", _safe_parse(fresh_b, t)),
+                           ("parse in the side context", _safe_parse(side_ctx, t)),
+                           ("re-parse in context 1", _safe_parse(ctx1, t))], t, stage, R)
+        for (n, ty, body), c1 in zip(ctor_args, ctor_first):
+            txt = ("!" if ty else "#") + n + (f"<{body}>" if body else "")
+            compare_group([("first construction", c1),
+                           ("construction through with_name_and_type again", bi.UnregisteredAttr.with_name_and_type(n, ty)(n, ty, False, body)),
+                           ("parse in a fresh context", _safe_parse(new_ctx(True), txt)),
+                           ("parse in context 1", _safe_parse(ctx1, txt))], txt, stage, R)
+        R.bump("history_checkpoints")
+
+
 # ------------------------------------------------------------------ CSE downstream
 def check_cse(rng, R, n_modules):
     from xdsl.dialects import arith
@@ -542,10 +673,13 @@ def plan(tier, seed):
                      "pools": 3 if tier == "quick" else 32,
                      "twoctx": 250 if tier == "quick" else 4000,
                      "corpus_chunks": 30 if tier == "quick" else 400,
-                     "cse": 50 if tier == "quick" else 800})
+                     "cse": 50 if tier == "quick" else 800, "history": 450 if tier == "quick" else 1500})
     # one directed job: corpus-wide same-class groups (quick: every second chunk)
     jobs.append({"seed": seed, "kind": "groups", "shard": seed % 3 if tier == "quick" else 0,
                  "nshards": 3 if tier == "quick" else 1, "corpus_chunks": 100000})
+    # directed job: long interleaved history between two uses of the same text / constructor arguments
+    jobs.append({"seed": seed, "kind": "history", "shard": seed % 8, "nshards": 8 if tier == "quick" else 4,
+                 "corpus_chunks": 40 if tier == "quick" else 400, "history": 5000 if tier == "quick" else 60000})
     return jobs
 
 
@@ -562,6 +696,12 @@ def work(job):
     if job.get("kind") == "groups":
         check_class_groups(harvested, rng, R)
         return {"evaluations": R.counters.get("group_pairs_compared", 0), "nontrivial": sorted(R.nontrivial), "samples": [],
+                "counters": R.counters, "sets": {k: sorted(v) for k, v in R.sets.items()}, "violations": R.violations}
+    if job.get("kind") == "history":
+        n = job["history"]
+        check_interleaved_history(rng, R, n, harvested, [140, 300, 700, 1500, 3000] + list(range(6000, n + 1, 6000)) + [n])
+        return {"evaluations": R.counters.get("history_comparisons", 0), "nontrivial": sorted(R.nontrivial),
+                "samples": [{"interleaved_history_lookups": R.counters.get("history_interleaved_lookups", 0)}],
                 "counters": R.counters, "sets": {k: sorted(v) for k, v in R.sets.items()}, "violations": R.violations}
     samples = []
     for p in range(job["pools"]):
@@ -581,7 +721,10 @@ def work(job):
     check_two_contexts_generated(rng, R, job["twoctx"])
     check_two_contexts_corpus(job["shard"], job["nshards"], job["corpus_chunks"], R)
     check_cse(rng, R, job["cse"])
-    return {"evaluations": R.counters.get("pairs_compared", 0) + R.counters.get("twoctx_pairs", 0) + R.counters.get("cse_uses_checked", 0),
+    if job.get("history"):
+        check_interleaved_history(rng, R, job["history"], harvested, [150, job["history"]])
+    return {"evaluations": R.counters.get("pairs_compared", 0) + R.counters.get("twoctx_pairs", 0) + R.counters.get("cse_uses_checked", 0)
+            + R.counters.get("history_comparisons", 0),
             "nontrivial": sorted(R.nontrivial), "samples": samples, "counters": R.counters,
             "sets": {k: sorted(v) for k, v in R.sets.items()}, "violations": R.violations}
 
@@ -594,6 +737,8 @@ def finish(agg, tier):
                     ("nontrivial_pairs", 3000 if q else 200000), ("transitivity_triples", 1000 if q else 40000),
                     ("twoctx_generated_texts", 800 if q else 100000), ("twoctx_corpus_attr_pairs", 800 if q else 10000),
                     ("group_pairs_compared", 1500 if q else 4000), ("class_groups", 40 if q else 80),
+                    ("history_interleaved_lookups", 6000 if q else 100000), ("history_comparisons", 1200 if q else 8000),
+                    ("history_checkpoints", 15 if q else 100),
                     ("cse_uses_checked", 2000 if q else 100000), ("cse_ops_merged", 200 if q else 5000),
                     ("corpus_distinct_attrs_harvested", 500), ("lookups_through_equal_copy", 200 if q else 20000)):
         if c.get(k, 0) < need:
